@@ -1,6 +1,7 @@
 import HedVerif.Driver.Util
 import HedVerif.Driver.Store
 import Std.Data.HashMap
+import Std.Data.HashSet
 open Lean
 namespace HedVerif.Driver.C03
 open HedVerif HedVerif.Driver HedVerif.Schema
@@ -32,6 +33,30 @@ def functionalTable (t : Table) : Bool := Id.run do
     | none => m := m.insert ks i
   return true
 
+/-- evaluates `C03.TreeClosed` in the form of `C03.treeClosed_iff_parents`: the parent of every tag of
+depth ≥ 2 is a tag -/
+def treeClosedB (tags : List Schema.Name) : Bool := Id.run do
+  let mut m : Std.HashSet String := {}
+  for n in tags do
+    m := m.insert (String.ofList (joinSlash n))
+  for n in tags do
+    if n.length ≥ 2 && !m.contains (String.ofList (joinSlash n.dropLast)) then return false
+  return true
+
+/-- same definition as `C03.shortKey` (the driver does not import the proofs) -/
+def shortKey (n : Schema.Name) : Schema.Name :=
+  if n.getLast? = some ['#'] then n.drop (n.length - 2) else [nameKey n]
+
+/-- evaluates `C03.ShortDistinct fold tags`: folded short keys pairwise distinct, only `#` folds to `#` -/
+def shortDistinctB (fold : Str → Str) (tags : List Schema.Name) : Bool := Id.run do
+  let mut m : Std.HashSet String := {}
+  for n in tags do
+    if fold (nameKey n) == fold ['#'] && nameKey n != ['#'] then return false
+    let ks := String.ofList (joinSlash (foldName fold (shortKey n)))
+    if m.contains ks then return false
+    m := m.insert ks
+  return true
+
 def handleIO (op : String) (j : Json) : Option (IO (Except String Json)) :=
   match op with
   | "c03.schema" => some do
@@ -45,6 +70,8 @@ def handleIO (op : String) (j : Json) : Option (IO (Except String Json)) :=
         let v := Vocab.build foldAscii (tags.map splitSlash)
         schemaStore.modify fun st => (name, ⟨v, ns⟩) :: st.filter (·.1 != name)
         pure (.ok (jobj [("tags", jnat tags.length), ("table", jnat v.table.length), ("wf", jbool (functionalTable v.table)),
+                         ("treeClosed", jbool (treeClosedB (tags.map splitSlash))),
+                         ("shortDistinct", jbool (shortDistinctB foldAscii (tags.map splitSlash))),
                          ("dups", jarr (v.dups.map fun i => jstr (joinSlash (v.name i))))]))
   | "c03.find" => some do
       match (do pure (← getString j "schema", ← getStr j "text") : Except String _) with
